@@ -129,6 +129,17 @@ def run(ctx, rep):
                 arms[arm] = ('str', strip(sl.operand(f, c.args[1])))
             elif c.decl.endswith('Serialize::serialize'):
                 arms[arm] = ('delegate', strip(sl.operand(f, c.args[0])))
+        if not arms:
+            # one serialising call fed by a per-variant table (possibly computed by a private helper)
+            for c in f.calls:
+                if c.indirect or not c.decl or not c.decl.endswith(('Serializer::serialize_str', 'Serialize::serialize')):
+                    continue
+                how = 'str' if c.decl.endswith('serialize_str') else 'delegate'
+                sv = strip(sl.inline_deep(sl.operand(f, c.args[1 if how == 'str' else 0])))
+                if sv[0] == 'select' and sv[2] == 'libcnb_data::launch::WorkingDirectory' and strip(sv[1])[0] == 'param':
+                    for names, val in sv[3]:
+                        for n in names:
+                            arms[n] = ('str' if val[0] == 'const' else how, strip(val))
         a_ok = arms.get('App') == ('str', ('const', '.'))
         d = arms.get('Directory')
         d_ok = d is not None and d[0] == 'delegate' and d[1][0] == 'field' and d[1][1][0] == 'variant' and d[1][1][2] == 'Directory'
@@ -217,6 +228,7 @@ def run(ctx, rep):
             return (src[0] == 'field' and src[2] == 'acc') or (src[0] == 'call' and src[1].endswith('into_iter'))
         return False
     top = {}
+    vals_all = []
     for f in reach:
         vals = []
         for key, defs in f.defs().items():
@@ -230,6 +242,7 @@ def run(ctx, rep):
                 if st[0] == '=' and st[2]['r'] == 'agg' and st[2].get('adt') == 'libcnb_data::build_plan::BuildPlan':
                     v = sl._rvalue(f, st[2], set(), 0, None)
                     vals += [('.' + n, fv) for n, fv in v[3]]
+        vals_all.extend(vals)
         for fld, v in vals:
             v0 = strip(v)
             if fld in ('.provides', '.requires') and v0[0] == 'field' and front_elem(v0[1]):
@@ -265,7 +278,22 @@ def run(ctx, rep):
             how = 'map-collect'
             ok = len(mp) == 1 and any(c.decl == 'std::iter::Iterator::collect' for c in parent.calls)
         else:
+            # Or built by a helper handed to Iterator::map (fn item), collected into the `or` field: read the elements of
+            # that field's value with the iterator algebra
+            from .lib import iters
             ok = False
+            for fld, v in vals_all:
+                if fld != '.or':
+                    continue
+                al = iters.alts(sl, v)
+                if len(al) == 1 and not al[0][2] and al[0][1] is not None:
+                    ev = strip(sl.inline_deep(al[0][0]))
+                    if ev[0] == 'agg' and ev[1] == 'libcnb_data::build_plan::Or':
+                        fl2 = dict(ev[3])
+                        p2, r2 = strip(fl2['provides']), strip(fl2['requires'])
+                        ok = p2[0] == 'field' and r2[0] == 'field' and p2[2] == '0' and r2[2] == '1' and strip(p2[1]) == strip(r2[1]) \
+                            and strip(p2[1])[0] == 'call' and strip(p2[1])[1] == 'std::iter::Iterator::next'
+                        how = 'map(helper)-collect'
         names = [c.decl or '' for g in reach for c in g.calls if (c.decl or '').startswith(('std::iter::Iterator::', 'std::iter::DoubleEndedIterator::'))]
         names += [c.name or '' for g in reach for c in g.calls if (c.name or '').startswith(('std::collections::VecDeque', 'core::slice::', 'std::vec::Vec'))]
         ok = ok and not any(n.split('::')[-1] in ('rev', 'reverse', 'sort', 'sort_by', 'sort_by_key', 'filter', 'filter_map', 'skip', 'take', 'step_by', 'dedup',
